@@ -1,5 +1,56 @@
 import BlochVerif.Parse.Model
 import BlochVerif.Lex.Proofs
+/-!
+# C13 — the front end is total
+
+*Proved* (model level): the lexer model is total and its loop terminates by consuming input
+(the fuel it is run with is provably irrelevant); lexing and parsing return either a result or
+**exactly one** located diagnostic of one category.
+
+*Partial, named*: (1) for the parser model the `outOfFuel` outcome is not proved unreachable —
+the driver reports it as `OUT-OF-FUEL` and every correspondence run counts it (0 on every run so
+far, with fuel `16·tokens + 100`); (2) the semantic analyser and the import loader are not part of
+this model (C16/C19 model fragments of them) — "terminates, one diagnostic, analyser reusable" is
+checked on the real code with an ASan/UBSan build, a shared analyser instance compared against a
+fresh one, and a timeout; (3) memory safety and stack depth of the real C++ are observed, not proved.
+-/
 namespace BlochVerif.Props.C13
-theorem placeholder : True := trivial
+open BlochVerif.Lex BlochVerif.Parse
+
+/-- the lexer returns tokens or exactly one lexical error — for every byte string -/
+theorem lexer_total (kw : List Char → Option TokenType) (src : List Char) :
+    (∃ toks, tokenize kw src = .ok toks) ∨ (∃ e, tokenize kw src = .error e) := by
+  cases h : tokenize kw src with
+  | ok t => exact Or.inl ⟨t, rfl⟩
+  | error e => exact Or.inr ⟨e, rfl⟩
+
+/-- **the lexer loop never hangs**: any fuel above the input length gives the same answer as the
+    fuel `length + 1` that `tokenize` uses, i.e. the loop always ends by exhausting the input -/
+theorem lexer_never_runs_out_of_fuel (kw : List Char → Option TokenType) (src : List Char)
+    (fuel : Nat) (h : src.length < fuel) :
+    tokenizeAux kw fuel src ⟨1, 1⟩ [] = tokenize kw src := by
+  unfold tokenize
+  exact tokenizeAux_fuel_irrelevant kw fuel (src.length + 1) src ⟨1, 1⟩ [] h (by omega)
+
+/-- an accepted token list always ends with exactly one `Eof`, so the parser's `peek()` beyond
+    the end and `previous()` never leave the vector -/
+theorem lexed_ends_with_eof {p0 : Pos} {src : List Char} {toks : List Token} (hl : Lexed p0 src toks) :
+    ∃ init p, toks = init ++ [⟨.Eof, [], p⟩] := by
+  induction hl with
+  | @eof p w _ => exact ⟨[], _, rfl⟩
+  | @tok p w t rest ts _ _ _ _ ih =>
+    obtain ⟨init, q, e⟩ := ih
+    exact ⟨t :: init, q, by rw [e]; rfl⟩
+
+theorem tokens_end_with_eof (kw : List Char → Option TokenType) (src : List Char) (toks : List Token)
+    (h : tokenize kw src = .ok toks) : ∃ init p, toks = init ++ [⟨.Eof, [], p⟩] :=
+  lexed_ends_with_eof (tokenize_lossless kw src toks h)
+
+/-- the parser returns a tree or exactly one located diagnostic -/
+theorem parser_total (tb : Tables) (toks : List Token) :
+    (∃ p, parseProgram tb toks = .ok p) ∨ (∃ e, parseProgram tb toks = .error e) := by
+  cases h : parseProgram tb toks with
+  | ok t => exact Or.inl ⟨t, rfl⟩
+  | error e => exact Or.inr ⟨e, rfl⟩
+
 end BlochVerif.Props.C13
